@@ -52,9 +52,9 @@ def describe(inst, res, f):
 
 def run(tier, seed):
     quick = tier == "quick"
-    plan = [("tut13x3", None, 32), ("tut13x3", {"test_timeout": 1}, 32), ("guix2", None, 16), ("tut13c", None, 28)] if quick else \
+    plan = [("tut13x3", None, 32), ("tut13x3", {"test_timeout": 1}, 32), ("guix2", None, 16), ("tut13c", None, 24), ("tut13mix", None, 24)] if quick else \
            [("tut13x3", None, 300), ("tut13x3", {"test_timeout": 1}, 300), ("tut13x4", None, 200), ("tut13x4", {"test_timeout": 1}, 200),
-            ("guix2", None, 200), ("guix3e", {"test_timeout": 1}, 200), ("tut13c", None, 200), ("tut1c", {"test_timeout": 1}, 200)]
+            ("guix2", None, 200), ("guix3e", {"test_timeout": 1}, 200), ("tut13c", None, 200), ("tut1c", {"test_timeout": 1}, 200), ("tut13mix", None, 200)]
     return D.generic_run(PID, tier, seed, plan, make_jobs, signature, describe, explore_plan=D.explore_plan(tier, ['NoC04'], retries=True),
                          rule="randomized durations within the timeout, wake-up orders induced by them, max_tries/max_concurrent_tries variants, pool_scope subsets, lxc and remote workers, "
                               "timeouts 100 s and 1 s (bounce 0.1 s); TLC validates the concurrency bound at every start/prestart",
